@@ -156,12 +156,6 @@ def r2_getr(ctx):
         return NotImplemented
 
     W = World(ctx, extra=extra)
-    # the Newton loop: the one loop of the function (while / while True + break / counted for; a `with` block around it is transparent)
-    body = _through_with(fn.body)
-    loops = [s for s in body if isinstance(s, (ast.While, ast.For))]
-    if len(loops) != 1:
-        raise AnchorError("_getr: Newton loop")
-    loop = loops[0]
     env = {params[0]: n, params[1]: prob}
     if len(params) > 2:
         env[params[2]] = tol
@@ -170,6 +164,41 @@ def r2_getr(ctx):
             [(a_, d_) for a_, d_ in zip(fn.args.kwonlyargs, fn.args.kw_defaults) if d_ is not None]:
         if a_.arg not in env:
             env[a_.arg] = dflt.ev(d_)          # e.g. the iteration limit as a defaulted parameter
+    # the Newton loop: the one loop of the function (while / while True + break / counted for; a `with` block around it is transparent).  When the
+    # function has no loop of its own but hands the iteration to one helper of the module, the analysis moves into that helper with the values the
+    # call binds its parameters to; what the helper returns must then be returned unchanged.
+    handed_on = []
+    for _ in range(3):
+        body = _through_with(fn.body)
+        loops = [s for s in body if isinstance(s, (ast.While, ast.For))]
+        if loops:
+            break
+        inner = [f for nm_, f in W.modfuncs.items() if f is not fn and any(isinstance(s, (ast.While, ast.For)) for s in _through_with(f.body))
+                 and any(isinstance(x, ast.Call) and isinstance(x.func, ast.Name) and x.func.id == nm_ for x in ast.walk(fn))]
+        if len(inner) != 1:
+            break
+        bound, held = [], W.extra
+
+        def into(nm, node, ev, inner=inner[0], bound=bound, held=held):
+            if nm == inner.name:
+                pos, kw = ev.args(node)
+                bound.append(ev.W.bind(inner, None, pos, kw, nm))
+                return F.sym("<iterate>")
+            return held(nm, node, ev)
+
+        W.extra = into
+        try:
+            outer_paths = _returning(ctx, W, fn, env, "_getr")
+        finally:
+            W.extra = held
+        if not bound or any(is_unknown(b_) for b_ in bound):
+            ctx.error("_getr: call of the helper that holds the Newton loop", fn, bound[0].why if bound else inner[0].name)
+            return
+        handed_on.append((fn, outer_paths))
+        fn, env = inner[0], bound[0]
+    if len(loops) != 1:
+        raise AnchorError("_getr: Newton loop")
+    loop = loops[0]
     ev = Ev(W, env=env, fnode=fn)
     at = body.index(loop)
     ev.run(body[:at])
@@ -397,6 +426,9 @@ def r2_getr(ctx):
         ctx.error("_getr: returns the converged iterate", where, _why(unknown))
     else:
         ctx.check(ok, "_getr: returns the converged iterate", where)
+    for f_, ps in handed_on:
+        bad = [q for q in ps if symname(q.value) != "<iterate>"]
+        ctx.check(not bad, f"{f_.name}: returns the iterate its helper converged to, unchanged", (bad or ps)[0].node, None if not bad else _why(bad[0].value))
     # documentation only (not a condition on behaviour): the integral the docstring shows has the limits the residual uses.  Compared loosely
     # (blanks and case ignored); a docstring that spells the integral differently is not compared at all.
     doc = "".join((ast.get_docstring(fn) or "").lower().split())
@@ -713,7 +745,7 @@ def r5_brackets(ctx):
             ctx.error("order_stats: function holding the brentq call", call)
             continue
         W.base = _which_oracle
-        B = None
+        B = known = None
         try:
             for k, (holder, entry) in enumerate(frames):
                 try:
@@ -724,12 +756,14 @@ def r5_brackets(ctx):
                     continue
                 if not cand.observed:
                     continue
-                st_, av_, bv_ = cand.observed[-1][:3]
                 if B is None:
                     B = cand
-                if all(const_value(v) is not None or any(st_.has(v, rel) for rel in RELS) for v in (av_, bv_)):
-                    B = cand
+                if known is None and all(rat(v) for _, av_, bv_, _, _ in cand.observed for v in (av_, bv_)):
+                    known = cand         # the nearest function from which the values of both ends are visible (not handed in as parameters)
+                if all(const_value(v) is not None or any(st_.has(v, rel) for rel in RELS) for st_, av_, bv_, _, _ in cand.observed for v in (av_, bv_)):
+                    B = known = cand
                     break
+            B = known or B
         finally:
             W.base = None
         if B is None:
@@ -746,19 +780,24 @@ def r5_brackets(ctx):
         if not B.observed:
             ctx.error("order_stats: brentq call not reached by the abstract execution", call)
             continue
-        st, av, bv, an, bn = B.observed[-1]
+        # one observation for every way the call is reached (the ways a helper returned are kept apart): an end is established when it is on each
         est = {}
-        for w, v, node in (("lower", av, an), ("upper", bv, bn)):
-            if const_value(v) is not None:
+        for w, k in (("lower", 1), ("upper", 2)):
+            node = B.observed[-1][k + 2]
+            vals = [(o[0], o[k]) for o in B.observed]
+            if all(const_value(v) is not None for _, v in vals):
                 continue
-            if not rat(v):
-                ctx.error(f"order_stats: value of the {w} bracket end `{ast.unparse(node) if node is not None else '?'}`", call, _why(v))
+            bad = [v for _, v in vals if not rat(v)]
+            if bad:
+                ctx.error(f"order_stats: value of the {w} bracket end `{ast.unparse(node) if node is not None else '?'}`", call, _why(bad[0]))
                 est[w] = ["unknown"]
                 continue
-            est[w] = [rel for rel in RELS if st.has(v, rel)]
+            est[w] = [rel for rel in RELS if all(const_value(v) is None and st.has(v, rel) for st, v in vals)]
             nm = node.id if isinstance(node, ast.Name) else None
-            defs = sorted(st.defs.get(nm, ()), key=lambda d: (d.lineno, d.col_offset)) if nm else []
-            blamed = B.culprits.get(nm, set()) if nm else set()
+            defs = sorted({d for st, _ in vals for d in st.defs.get(nm, ())}, key=lambda d: (d.lineno, d.col_offset)) if nm else []
+            # when an end is not established, the definitions that lose the sign fact are named - but only when one of them is among the
+            # definitions reported here (a definition inside a helper whose result is unpacked later is not): otherwise every definition fails
+            blamed = (B.culprits.get(nm, set()) if nm else set()) & set(defs)
             why = ("brentq raises ValueError when f(a) and f(b) have the same sign: e.g. when `r` samples already meet the requested confidence "
                    "(f(r) >= 0), order_stats('n', ...) fails instead of returning r")
             if not defs:
